@@ -51,8 +51,10 @@ def finalize(prop: str, tier: str, seed: int, t0: float, *, violations: List[dic
         "property_id": prop, "tier": tier, "seed": seed, "level": level, "coverage": cov,
         "assumptions": assumptions, "wall_s": round(time.time() - t0, 2), "violations": len(fresh),
     }
-    os.makedirs(os.path.join(ROOT, "evidence"), exist_ok=True)
-    with open(os.path.join(ROOT, "evidence", f"{prop}.json"), "w") as f:
+    # (runs against a scratch copy of the repository - seeded changes - must not overwrite the evidence of /repo)
+    evdir = os.environ.get("VERIF_EVIDENCE_DIR") or os.path.join(ROOT, "evidence")
+    os.makedirs(evdir, exist_ok=True)
+    with open(os.path.join(evdir, f"{prop}.json"), "w") as f:
         json.dump(ev, f, indent=1, sort_keys=True)
     if fresh:
         return 1
